@@ -221,14 +221,19 @@ def run_r3(ctx, rule):
                 rule.check(bool(hit), "%s/%s/%s-continues" % (mod, meth, tok), "%s::Parser::%s: a %s is an alternative of the statement loop and its success continues the loop" % (mod, meth, {"comment": "comment line", "newline": "blank line"}[tok]), f.loc(hit[0][2]) if hit else f.loc())
             hs = set(a[0] for a in alts if a[1] in need)
             rule.check(len(hs) == 1, "%s/%s/same-loop" % (mod, meth), "comment and blank line continue the same loop", f.loc())
-            seqs[(mod, meth)] = [n for bb, n in calls]
+            # (alternatives may sit in the function or in the closures it hands to the combinators)
+            inner = []
+            for i2, g2 in facts.fns.items():
+                if g2.kind == "Closure" and norm(i2).startswith(norm(f.id) + "::{closure"):
+                    inner += [norm(util.cname(t2))[len(TOK):] for _, t2 in g2.calls() if norm(util.cname(t2)).startswith(TOK)]
+            seqs[(mod, meth)] = [n for bb, n in calls] + inner
     # sibling agreement: same alternatives in the same order (first-token parser of the statement aside)
     for meth in ("next_clause", "parse_header"):
         ss = {m: seqs.get((m, meth)) for m in ("cnf", "wcnf", "gcnf") if (m, meth) in seqs}
         def tail(seq):
-            return [n for n in seq if n in ("comment", "newline", "eof", "word")]
+            return sorted(n for n in seq if n in ("comment", "newline", "eof", "word"))
         ts = set(tuple(tail(v)) for v in ss.values())
-        rule.check(len(ts) == 1 and len(ss) == 3, "siblings/%s" % meth, "cnf, wcnf and gcnf %s dispatch the same layout alternatives in the same order (%s)" % (meth, " | ".join("%s: %s" % (k, ",".join(tail(v))) for k, v in sorted(ss.items()))), "")
+        rule.check(len(ts) == 1 and len(ss) == 3, "siblings/%s" % meth, "cnf, wcnf and gcnf %s dispatch the same layout alternatives (%s)" % (meth, " | ".join("%s: %s" % (k, ",".join(tail(v))) for k, v in sorted(ss.items()))), "")
 
 
 # ---- R4 -----------------------------------------------------------------------------------------
